@@ -52,7 +52,11 @@ type Dir struct {
 	F1    []int  `json:"f1"` // indices into fns for a.go
 	F2    []int  `json:"f2"` // for b.go (nil = no second file)
 	Extra string `json:"extra"`
+	Name1 string `json:"name1"` // name of the first source file ("" = a.go)
 }
+
+// source file names that share a prefix or suffix with the names the generators filter on
+var fileNames = []string{"latest.go", "a.gold.go", "gold.v.go", "test_util.go", "a_testing.go", "a~b.go"}
 
 func (d Dir) ID() string {
 	n := func(x []int) string {
@@ -61,6 +65,9 @@ func (d Dir) ID() string {
 			s = append(s, fns[i].ID)
 		}
 		return strings.Join(s, "+")
+	}
+	if d.Name1 != "" {
+		return fmt.Sprintf("%s[%s]b[%s]extra=%s", d.Name1, n(d.F1), n(d.F2), d.Extra)
 	}
 	return fmt.Sprintf("a[%s]b[%s]extra=%s", n(d.F1), n(d.F2), d.Extra)
 }
@@ -78,7 +85,11 @@ func (d Dir) files() map[string]string {
 		}
 		return b.String()
 	}
-	out["a.go"] = mk(d.F1)
+	if d.Name1 != "" {
+		out[d.Name1] = mk(d.F1)
+	} else {
+		out["a.go"] = mk(d.F1)
+	}
 	if d.F2 != nil {
 		out["b.go"] = mk(d.F2)
 	}
@@ -358,6 +369,12 @@ func dirs(tier string) []Dir {
 	if tier == "thorough" {
 		s2 = seqs(2)
 	}
+	for _, a := range seqs(1) {
+		for _, fn := range fileNames {
+			out = append(out, Dir{F1: a, Extra: "none", Name1: fn})
+			out = append(out, Dir{F1: a, F2: []int{(a[0] + 1) % len(fns)}, Extra: "none", Name1: fn})
+		}
+	}
 	for _, a := range s1 {
 		for _, ex := range extras {
 			out = append(out, Dir{F1: a, Extra: ex})
@@ -422,7 +439,11 @@ func compileBatch(root string, items map[string]Dir, srcs map[string]string, acc
 	}
 	for k, l := range failed {
 		d := items[k]
-		acc.Violate(ev.Violation{Key: "C18/" + d.ID() + "/go-does-not-compile", Msg: fmt.Sprintf("directory %s: generated Go test file does not compile against the package: %s", d.ID(), strings.TrimSpace(l)), Replay: d})
+		kind := "go-does-not-compile"
+		if strings.Contains(l, "imported and not used") {
+			kind += "(unused-import)"
+		}
+		acc.Violate(ev.Violation{Key: "C18/" + d.ID() + "/" + kind, Msg: fmt.Sprintf("directory %s: generated Go test file does not compile against the package: %s", d.ID(), strings.TrimSpace(l)), Replay: d})
 	}
 }
 
@@ -524,7 +545,7 @@ func main() {
 	os.RemoveAll(root)
 	os.Exit(acc.Done(ev.Finish{
 		Prop: "C18", Tier: *tier, Level: "exploration", Start: start,
-		Rule:        "all package directories with a.go holding every sequence of <=2 (thorough <=3) distinct items of a 13-item function-header alphabet (plain, failing_, disabled_, helper, method, digit suffix, capital T, underscore and non-ASCII suffix, failing_ twin of a plain test, line-anchored decoys inside a block comment and a raw string, multi-word), optionally b.go with <=1 (thorough <=2) further items, x one extra entry {none, x_test.go, x.gold.v, x.go~, sub-directory, README.md, zz.txt} each holding a decoy header; the real test_gen binary run in -coq and -go mode; reference = go/parser over the non-test .go files in name order; oracles: Coq list == Go list == reference (order and Fail marking), method names unique, distinct generated Go files compiled against their package with go vet; evaluations = test_gen runs; non-trivial = directory with at least one test function",
+		Rule:        "all package directories with a.go holding every sequence of <=2 (thorough <=3) distinct items of a 13-item function-header alphabet (plain, failing_, disabled_, helper, method, digit suffix, capital T, underscore and non-ASCII suffix, failing_ twin of a plain test, line-anchored decoys inside a block comment and a raw string, multi-word), the first file also under 6 names that share a prefix or suffix with filtered names (latest.go, a.gold.go, gold.v.go, test_util.go, a_testing.go, a~b.go); optionally b.go with <=1 (thorough <=2) further items, x one extra entry {none, x_test.go, x.gold.v, x.go~, sub-directory, README.md, zz.txt} each holding a decoy header; the real test_gen binary run in -coq and -go mode; reference = go/parser over the non-test .go files in name order; oracles: Coq list == Go list == reference (order and Fail marking), method names unique, distinct generated Go files compiled against their package with go vet; evaluations = test_gen runs; non-trivial = directory with at least one test function",
 		Assumptions: []string{"a semantics package is gofmt-formatted and its test…/failing_test… functions have signature func() bool", "functions named exactly `test` are outside the alphabet"},
 		Extra:       map[string]any{"distinct_nontrivial": len(acc.Sets["nontrivial"])},
 	}))
